@@ -168,3 +168,287 @@ def analysis_multi_level(rep, fnd, table, records, pid, api="DWT1DForward"):
 
 def replay_case(rep, case):
     rep.fail("replay of individual cases: re-run the check; case was %s" % (case.get("case", {}).get("cfg"),))
+
+
+# ------------------------------------------------------------------------------------------
+# 2-D
+# ------------------------------------------------------------------------------------------
+def kron2(Ac, Ar):
+    """matrix of (column operator along axis -2) x (row operator along axis -1) on row-major images"""
+    return np.kron(Ac, Ar)
+
+
+def compose_fwd2(table, rec, taps, which="ref"):
+    """expected matrices of DWTForward for integer taps.
+    taps = dict(col=(h0,h1), row=(h0,h1)); returns (low, [ (LH,HL,HH) per level ])"""
+    get = table.a_ref if which == "ref" else table.a_impl
+    mode, H, W, J = rec["mode"], rec["H"], rec["W"], rec["J"]
+    Lc, Lr = rec["Lc"], rec["Lr"]
+    X = np.eye(H * W)
+    h, w = H, W
+    highs = []
+    for _ in range(J):
+        Ac = get(mode, h, Lc)
+        Ar = get(mode, w, Lr)
+        c0, c1 = dwtlib.mat(Ac, taps["col"][0]), dwtlib.mat(Ac, taps["col"][1])
+        r0, r1 = dwtlib.mat(Ar, taps["row"][0]), dwtlib.mat(Ar, taps["row"][1])
+        bands = []
+        for b in rec["wiring"]["bands"]:
+            if b["band"] == 0:
+                continue
+            bands.append((b["band"], kron2(c1 if b["col_high"] else c0, r1 if b["row_high"] else r0) @ X))
+        highs.append([m for _, m in sorted(bands, key=lambda z: z[0])])
+        X = kron2(c0, r0) @ X
+        h, w = Ac.shape[0], Ar.shape[0]
+    return X, highs
+
+
+def extract_fwd2(mode, H, W, J, wave):
+    import torch
+    import pytorch_wavelets as pw
+    dwtlib.f64()
+    X = torch.eye(H * W).reshape(H * W, 1, H, W)
+    try:
+        m = pw.DWTForward(J=J, wave=wave, mode=mode)
+        yl, yh = m(X)
+    except Exception as e:   # noqa
+        return dwtlib.Raised(e)
+    low = yl[:, 0].reshape(H * W, -1).numpy().T
+    highs = [[y[:, 0, b].reshape(H * W, -1).numpy().T for b in range(3)] for y in yh]
+    shapes = [tuple(y.shape[-2:]) for y in yh]
+    return low, highs, shapes, tuple(yl.shape[-2:])
+
+
+def chain_in_table2(table, rec):
+    return chain_in_table(table, rec["mode"], rec["H"], rec["Lc"], rec["J"]) and \
+        chain_in_table(table, rec["mode"], rec["W"], rec["Lr"], rec["J"])
+
+
+def analysis_2d(rep, fnd, table, records, pid, api="DWTForward"):
+    from .common import seed
+    rng = np.random.default_rng(2000 + seed())
+    n_ok = 0
+    for r in records:
+        if r.get("kind") != "dwt2.fwd":
+            continue
+        mode, H, W, J, Lc, Lr = r["mode"], r["H"], r["W"], r["J"], r["Lc"], r["Lr"]
+        cfg = {"mode": mode, "H": H, "W": W, "Lc": Lc, "Lr": Lr, "J": J}
+        case = {"api": api, "check": "analysis_2d", "cfg": cfg}
+        if not chain_in_table2(table, r):
+            rep.count("2d_skipped_outside_table")
+            continue
+        h0, h1 = dwtlib.int_taps(rng, Lc), dwtlib.int_taps(rng, Lc)
+        taps = {"col": (h0, h1), "row": (h0, h1)}
+        obs = extract_fwd2(mode, H, W, J, (h0, h1))
+        rep.validated()
+        if H != W or H % 2 == 1 or H < 2 * Lc or J > 1:
+            rep.nontriv((api, mode, H, W, Lc, J))
+        if isinstance(obs, dwtlib.Raised):
+            lh, lw = [H] + r["ref_lensH"], [W] + r["ref_lensW"]
+            if mode == "reflect" and (any(n < Lc for n in lh[:J]) or any(n < Lr for n in lw[:J])):
+                rep.count("admissible_raises")
+                if r["outcome"] != "raise":
+                    rep.drift.append("%s raises, model does not: %s" % (api, cfg))
+            else:
+                rep.violation("%s raised %r where PyWavelets returns coefficients (%s)" % (api, obs, cfg),
+                              dict(case, observed=repr(obs)))
+            continue
+        low, highs, shapes, lshape = obs
+        el, eh = compose_fwd2(table, r, taps, "ref")
+        exp_shapes = list(zip(r["ref_lensH"], r["ref_lensW"]))
+        good = shapes == exp_shapes and dwtlib.eq_int(low, el) and all(
+            dwtlib.eq_int(a, b) for la, lb in zip(highs, eh) for a, b in zip(la, lb))
+        if good:
+            n_ok += 1
+            if r["outcome"] != "ok" or shapes != list(zip(r["lensH"], r["lensW"])):
+                rep.drift.append("%s ok but DWT2 model says %s at %s" % (api, r["outcome"], cfg))
+            if n_ok == 1:
+                rep.sample({"api": api, "cfg": cfg, "taps": [h0.tolist(), h1.tolist()],
+                            "band_shapes_finest_first": shapes,
+                            "observed": "lowpass and (LH,HL,HH) of every level equal the Kronecker products of the Ref operators"})
+            continue
+        what = "band shapes %s, expected %s" % (shapes, exp_shapes)
+        if shapes == exp_shapes:
+            # name the first band that differs
+            names = ["LH", "HL", "HH"]
+            what = "lowpass differs" if not dwtlib.eq_int(low, el) else ""
+            for j, (la, lb) in enumerate(zip(highs, eh)):
+                for k, (a, b) in enumerate(zip(la, lb)):
+                    if not dwtlib.eq_int(a, b) and not what:
+                        # is it another band's expected content (wrong order)?
+                        same_as = [names[q] for q in range(3) if dwtlib.eq_int(a, lb[q])]
+                        what = "level %d band %s differs" % (j + 1, names[k]) + (
+                            " (it holds the content expected for %s)" % same_as[0] if same_as else "")
+        rep.violation("%s differs from pywt.wavedec2 (composed Ref operators) at %s: %s" % (api, cfg, what),
+                      dict(case, taps=[h0.tolist(), h1.tolist()], shapes=shapes))
+    rep.count("2d_analysis_configs_equal_ref", n_ok)
+
+
+# ------------------------------------------------------------------------------------------
+# code -> spec : recorded operators of real wavelets, validated by Trace_DWT
+# ------------------------------------------------------------------------------------------
+def sparse(op):
+    idx = np.argwhere(op != 0)
+    out = []
+    for o, t, i in idx:
+        v = op[o, t, i]
+        out.append([int(o), int(t), int(i), int(v) if float(v).is_integer() else float(v)])
+    return out
+
+
+def wavelet_lengths(maxL):
+    import pywt
+    seen = {}
+    for name in pywt.wavelist(kind="discrete"):
+        L = pywt.Wavelet(name).dec_len
+        if L % 2 == 0 and L <= maxL:
+            seen.setdefault(L, name)
+    return seen            # L -> a wavelet of that length
+
+
+def record_analysis_events(rep, tier):
+    """operators of the real DWT1DForward for the filter lengths of real wavelets and seeded random
+    sizes (beyond the bounded model), plus the band shapes of multi-level calls"""
+    from .common import seed
+    rng = np.random.default_rng(3000 + seed())
+    maxL, maxN, per = (20, 70, 2) if tier == "quick" else (40, 130, 4)
+    events = []
+    for L, name in sorted(wavelet_lengths(maxL).items()):
+        for mode in dwtlib.MODES:
+            Ns = set(int(x) for x in rng.integers(2, maxN, size=per))
+            Ns.add(int(rng.integers(2, max(3, L))))          # shorter than the filter
+            for N in sorted(Ns):
+                obs = dwtlib.extract_fwd1(mode, N, L)
+                if isinstance(obs, dwtlib.Raised):
+                    events.append({"ev": "dwt1.analysis", "wavelet": name, "mode": mode, "N": N, "L": L,
+                                   "outcome": "raise", "len": 0, "lo": [], "hi": []})
+                else:
+                    lo, hi = obs
+                    events.append({"ev": "dwt1.analysis", "wavelet": name, "mode": mode, "N": N, "L": L,
+                                   "outcome": "ok", "len": int(lo.shape[0]), "lo": sparse(lo), "hi": sparse(hi)})
+                J = int(rng.integers(2, 5))
+                import torch
+                import pytorch_wavelets as pw
+                try:
+                    yl, yh = pw.DWT1DForward(J=J, wave=name, mode=mode)(torch.zeros(1, 1, N))
+                    events.append({"ev": "dwt1.shapes", "wavelet": name, "mode": mode, "N": N, "L": L, "J": J,
+                                   "outcome": "ok", "lens": [int(y.shape[-1]) for y in yh]})
+                except Exception:   # noqa
+                    events.append({"ev": "dwt1.shapes", "wavelet": name, "mode": mode, "N": N, "L": L, "J": J,
+                                   "outcome": "raise", "lens": []})
+    return events
+
+
+def trace_validate_analysis(rep, pid, tier):
+    from . import tracecheck
+    events = record_analysis_events(rep, tier)
+    rej = tracecheck.validate(rep, "Trace_DWT", events, {"PerFix": True}, "Trace_DWT.analysis")
+    for k in rej:
+        e = events[k]
+        cfg = {key: e[key] for key in ("wavelet", "mode", "N", "L") if key in e}
+        if "J" in e:
+            cfg["J"] = e["J"]
+        rep.violation("recorded %s event of the real DWT1DForward is rejected by the trace specification "
+                      "(observable not admitted by Ref) at %s" % (e["ev"], cfg),
+                      {"api": "DWT1DForward", "check": "trace", "cfg": cfg, "event": {k2: e[k2] for k2 in e if k2 not in ("lo", "hi")}})
+    for e in events:
+        rep.nontriv(("trace", e["ev"], e["mode"], e["N"], e["L"], e.get("J", 1)))
+    if events:
+        e = events[0]
+        rep.sample({"trace_event": {k2: (e[k2][:4] if isinstance(e[k2], list) else e[k2]) for k2 in e}})
+    rep.count("trace_events_recorded", len(events))
+    rep.count("trace_events_rejected", len(rej))
+
+
+# ------------------------------------------------------------------------------------------
+# real taps: the library vs PyWavelets on real-valued inputs (up to rounding)
+# ------------------------------------------------------------------------------------------
+EPS64 = 2.220446049250313e-16
+
+
+def adversarial_inputs(rng, shape):
+    """gaussian, impulses at both borders, constant, alternating signs, large dynamic range"""
+    n = shape[-1]
+    xs = [rng.standard_normal(shape)]
+    imp = np.zeros(shape)
+    imp[..., 0] = 1.0
+    imp[..., -1] = -2.0
+    xs.append(imp)
+    xs.append(np.ones(shape) * 3.0)
+    alt = np.ones(shape)
+    alt[..., ::2] = -1
+    xs.append(alt)
+    xs.append(rng.standard_normal(shape) * np.exp(rng.uniform(-12, 12, size=shape)))
+    return xs
+
+
+def numeric_vs_pywt(rep, pid, tier):
+    import pywt
+    import torch
+    import pytorch_wavelets as pw
+    from .common import seed
+    dwtlib.f64()
+    rng = np.random.default_rng(4000 + seed())
+    names = [w for w in pywt.wavelist(kind="discrete")]
+    if tier == "quick":
+        names = ["haar", "db2", "db5", "sym4", "coif2", "bior1.3", "bior2.4", "bior3.9", "rbio2.2", "dmey"]
+    n1 = n2 = 0
+    for name in names:
+        wv = pywt.Wavelet(name)
+        L = wv.dec_len
+        G = max(np.abs(wv.dec_lo).sum(), np.abs(wv.dec_hi).sum())
+        for mode in dwtlib.MODES:
+            N = int(rng.integers(max(2, L // 2), 2 * L + 40))
+            J = int(rng.integers(1, 4))
+            # ---- 1-D
+            for x in adversarial_inputs(rng, (2, 3, N)):
+                ref = pywt.wavedec(x, wv, mode=mode, level=J, axis=-1)
+                try:
+                    yl, yh = pw.DWT1DForward(J=J, wave=name, mode=mode)(torch.tensor(x))
+                except Exception as e:   # noqa
+                    lens = [N]
+                    for _ in range(J):
+                        lens.append(pywt.dwt_coeff_len(lens[-1], L, mode))
+                    if mode == "reflect" and any(n < L for n in lens[:J]):
+                        continue
+                    rep.violation("DWT1DForward(%s, %s, J=%d) raised %r on a length-%d input" % (name, mode, J, e, N),
+                                  {"api": "DWT1DForward", "check": "numeric", "cfg": dict(wavelet=name, mode=mode, N=N, J=J)})
+                    break
+                bound = 64 * EPS64 * L * J * (G ** J) * max(1e-300, np.abs(x).max())
+                got = [yl.numpy()] + [y.numpy() for y in yh[::-1]]
+                err = max(np.abs(a - b).max() if a.shape == b.shape else np.inf for a, b in zip(got, ref))
+                n1 += 1
+                if not err <= bound:
+                    rep.violation("DWT1DForward(%s, %s, J=%d, N=%d) differs from pywt.wavedec by %.3g (rounding bound %.3g)"
+                                  % (name, mode, J, N, err, bound),
+                                  {"api": "DWT1DForward", "check": "numeric", "cfg": dict(wavelet=name, mode=mode, N=N, J=J), "err": err})
+                    break
+            # ---- 2-D
+            H, W = int(rng.integers(2, L + 14)), int(rng.integers(2, L + 14))
+            J2 = int(rng.integers(1, 3))
+            for x in adversarial_inputs(rng, (1, 2, H, W))[:3]:
+                ref = pywt.wavedec2(x, wv, mode=mode, level=J2, axes=(-2, -1))
+                try:
+                    yl, yh = pw.DWTForward(J=J2, wave=name, mode=mode)(torch.tensor(x))
+                except Exception as e:   # noqa
+                    if mode == "reflect":
+                        continue
+                    rep.violation("DWTForward(%s, %s, J=%d) raised %r on a %dx%d input" % (name, mode, J2, e, H, W),
+                                  {"api": "DWTForward", "check": "numeric", "cfg": dict(wavelet=name, mode=mode, H=H, W=W, J=J2)})
+                    break
+                bound = 64 * EPS64 * L * L * J2 * (G ** (2 * J2)) * max(1e-300, np.abs(x).max())
+                err = np.abs(yl.numpy() - ref[0]).max() if yl.shape == ref[0].shape else np.inf
+                for j in range(J2):
+                    r3 = np.stack(ref[J2 - j], axis=2)     # (cH, cV, cD) of level j+1
+                    err = max(err, np.abs(yh[j].numpy() - r3).max() if tuple(yh[j].shape) == r3.shape else np.inf)
+                n2 += 1
+                if not err <= bound:
+                    rep.violation("DWTForward(%s, %s, J=%d, %dx%d) differs from pywt.wavedec2 by %.3g (rounding bound %.3g)"
+                                  % (name, mode, J2, H, W, err, bound),
+                                  {"api": "DWTForward", "check": "numeric", "cfg": dict(wavelet=name, mode=mode, H=H, W=W, J=J2), "err": err})
+                    break
+            rep.nontriv(("numeric", name, mode))
+    rep.validated(n1 + n2)
+    rep.count("numeric_1d_comparisons", n1)
+    rep.count("numeric_2d_comparisons", n2)
+    rep.count("wavelets_compared_numerically", len(names))
